@@ -71,6 +71,18 @@ func oracleC18(c *JCase) (fail *ev.Failure) {
 	if err != nil {
 		return ev.Failf(jsonSig("marshal-error", mt), "JSONMarshaler: %v", err)
 	}
+	// the returned bytes belong to the caller: a later marshal (other message, other options) must not change them
+	saved := append([]byte{}, out...)
+	if other, ok := m.(interface{ Reset() }); ok {
+		twin := mt.New()
+		FromDynamic(dyn, twin)
+		_, _ = csproto.JSONMarshaler(twin, csproto.JSONIndent("  "), csproto.JSONIncludeZeroValues(!c.ZeroValues)).MarshalJSON()
+		_, _ = csproto.JSONMarshaler(mt.New()).MarshalJSON()
+		_ = other
+	}
+	if !bytes.Equal(out, saved) {
+		return ev.Failf(jsonSig("output-changed-by-later-marshal", mt), "the bytes returned by MarshalJSON changed after two further MarshalJSON calls: %.120q -> %.120q", saved, out)
+	}
 	if !json.Valid(out) {
 		return ev.Failf(jsonSig("invalid-json", mt), "output is not well-formed JSON: %.200s", out)
 	}
@@ -259,7 +271,7 @@ func TestC18(t *testing.T) {
 	}
 	ev.Rapid(t, ev.N(12000, 300000), 18, func(rt *rapid.T) {
 		mt := rapid.SampledFrom(mine).Draw(rt, "type")
-		v := genDyn(rt, mt.Desc, 2, genOpts{runtime: mt.Info.Runtime, requiredProb: 10, maxMap: 2, jsonSafe: true})
+		v := genDyn(rt, mt.Desc, 2, genOpts{runtime: mt.Info.Runtime, requiredProb: 10, maxMap: 2, jsonSafe: true, noExt: true}) // extensions are outside the common JSON option surface
 		_, b := canon(v)
 		c := &JCase{Type: mt.Key(), Value: b,
 			Indent:        rapid.SampledFrom([]string{"", "", " ", "  ", "\t", " \t"}).Draw(rt, "indent"),
